@@ -30,6 +30,119 @@ type Case struct {
 	// seed) and New is what it computes; LongMsg: from longMessageReq.
 	Prepared uint64
 	LongMsg  bool
+	// live drift: Snap is the status of the (cached) object the graph was built from, i.e. what the
+	// ancestor-full checks saw when New was computed; Store is the LIVE object the first Get returns.
+	HasSnap  bool
+	Snap     []Entry
+	DriftOps string
+}
+
+func countForeign(st []Entry, ctlr string) int {
+	n := 0
+	for _, e := range st {
+		if e.Ctlr != ctlr {
+			n++
+		}
+	}
+	return n
+}
+
+// driftInfo: "-" when the live object is the one the status was computed from, otherwise
+// <edits>:<foreign entries in the snapshot>:<foreign entries in the live object>:<own computed entries>.
+func (c *Case) driftInfo() string {
+	if !c.HasSnap || encStatus(c.Snap) == encStatus(c.Store) {
+		return "-"
+	}
+	ops := c.DriftOps
+	if ops == "" {
+		ops = "replay"
+	}
+	return ops + ":" + strconv.Itoa(countForeign(c.Snap, c.Ctlr)) + ":" + strconv.Itoa(countForeign(c.Store, c.Ctlr)) +
+		":" + strconv.Itoa(len(c.New))
+}
+
+// entryLimit is the CRD's maxItems of the entry list (parents 32, ancestors 16, controllers 16): what an
+// object accepted by the API server can hold at most.
+func entryLimit(k *kindOps) int {
+	if k.mode == "ownFirst" {
+		return 32
+	}
+	return 16
+}
+
+// driftStatus: what other controllers did to the object between the graph build and our write: foreign
+// entries added (never beyond the CRD limit: the live object was accepted by the API server), removed,
+// reordered or altered. fill: add as many foreign entries as fit, at least one.
+func driftStatus(r *rng.R, k *kindOps, c *Case, snap []Entry, fill bool) ([]Entry, string) {
+	out := cloneStatus(snap)
+	limit := entryLimit(k)
+	var names []string
+	add := func() {
+		if len(out) >= limit {
+			return
+		}
+		e := genEntry(r, k, rng.Pick(r, foreignCtlrs), int64(r.Intn(9)), 1650000000+int64(r.Intn(1000)), false)
+		if len(e.Ref) == 6 {
+			e.Ref[3] = "drift-gw" + strconv.Itoa(len(out))
+		}
+		i := len(out)
+		if r.Chance(1, 3) {
+			i = r.Intn(len(out) + 1)
+		}
+		out = append(out[:i], append([]Entry{e}, out[i:]...)...)
+		names = append(names, "add")
+	}
+	foreignIdx := func() []int {
+		var idx []int
+		for i, e := range out {
+			if e.Ctlr != c.Ctlr {
+				idx = append(idx, i)
+			}
+		}
+		return idx
+	}
+	if fill {
+		free := limit - len(out)
+		n := free // half of the time the other controllers use up every free slot
+		if free > 1 && r.Bool() {
+			n = 1 + r.Intn(free)
+		}
+		for i := 0; i < n; i++ {
+			add()
+		}
+	}
+	for i, n := 0, r.Intn(3); i < n || len(names) == 0; i++ {
+		switch p := r.Intn(6); {
+		case p < 2:
+			add()
+		case p == 2:
+			if idx := foreignIdx(); len(idx) > 0 {
+				j := idx[r.Intn(len(idx))]
+				out = append(out[:j], out[j+1:]...)
+				names = append(names, "remove")
+			}
+		case p == 3:
+			if len(out) > 1 {
+				rng.Shuffle(r, out)
+				names = append(names, "reorder")
+			}
+		case p == 4:
+			if idx := foreignIdx(); len(idx) > 0 {
+				j := idx[r.Intn(len(idx))]
+				out[j], _ = perturbEntry(r, k, out[j])
+				names = append(names, "alter")
+			}
+		default:
+			if idx := foreignIdx(); len(idx) > 0 && len(out) < limit { // the other controller wrote an entry twice
+				out = append(out, retime(out[idx[r.Intn(len(idx))]], 1650000000))
+				names = append(names, "dup")
+			}
+		}
+		if i > 8 {
+			break
+		}
+	}
+	return out, strings.Join(names, "+")
 }
 
 var (
@@ -415,6 +528,16 @@ func genCase(r *rng.R, k *kindOps, steps int, trim func(k *kindOps, prev, own []
 	if nForeign > maxForeign {
 		nForeign = maxForeign
 	}
+	// live drift (decided here, applied below): the object fetched by the retry function is not the one the
+	// graph was built from. Half of these start from a snapshot with 1..3 free slots under the CRD limit
+	// (policies: 13..15 entries, routes: 29..31) which the other controllers then fill.
+	drift := r.Chance(1, 4)
+	nearLimit := drift && prep == 0 && r.Bool()
+	if nearLimit {
+		if nForeign = entryLimit(k) - len(prevOwn) - 1 - r.Intn(3); nForeign < 0 {
+			nForeign = 0
+		}
+	}
 	var prevForeign []Entry
 	for i := 0; i < nForeign; i++ {
 		var e Entry
@@ -444,6 +567,11 @@ func genCase(r *rng.R, k *kindOps, steps int, trim func(k *kindOps, prev, own []
 			return nil // no ancestors / list full: the Prepare* functions emit no request
 		}
 	}
+	// what the graph (and the real ancestor-full checks in trim) saw; the write lands on the live object
+	c.HasSnap, c.Snap = true, cloneStatus(c.Store)
+	if drift {
+		c.Store, c.DriftOps = driftStatus(r, k, c, c.Snap, nearLimit)
+	}
 	c.Sched = genSched(r, k, steps, c)
 	return c
 }
@@ -461,19 +589,25 @@ func genSched(r *rng.R, k *kindOps, steps int, c *Case) []op {
 	cur := c.Store
 	var out []op
 	for i := 0; i < n; i++ {
+		var o op
+		if r.Chance(1, 4) { // another writer changes the object between two attempts (before this Get)
+			cur = pokeStatus(r, k, c, cur)
+			o.hasPre, o.pre = true, cur
+		}
 		switch p := r.Intn(20); {
 		case p < 4:
-			out = append(out, op{kind: 'g'})
+			o.kind = 'g'
 		case p < 5:
-			out = append(out, op{kind: 'n'})
+			o.kind = 'n'
 		case p < 10:
-			out = append(out, op{kind: 'u'})
+			o.kind = 'u'
 		case p < 16:
 			cur = pokeStatus(r, k, c, cur)
-			out = append(out, op{kind: 'c', poke: cur})
+			o.kind, o.poke = 'c', cur
 		default:
-			out = append(out, op{kind: 'o'})
+			o.kind = 'o'
 		}
+		out = append(out, o)
 	}
 	return out
 }
@@ -494,7 +628,7 @@ func pokeStatus(r *rng.R, k *kindOps, c *Case, cur []Entry) []Entry {
 		}
 	}
 	switch p := r.Intn(6); {
-	case p == 0 && k.mode == "ownFirst" && len(out) < 24: // policies: never more foreign entries than when the status was computed
+	case p == 0 && len(out) < entryLimit(k): // a foreign entry more (the object stays within the CRD limit)
 		out = append(out, genEntry(r, k, rng.Pick(r, foreignCtlrs), 3, 1600000000, false))
 	case p == 1 && len(foreignIdx) > 0:
 		i := foreignIdx[r.Intn(len(foreignIdx))]
